@@ -37,7 +37,14 @@ impl FromMeta for DeriveInputShapeSet {
         let mut new = DeriveInputShapeSet::default();
         for item in items {
             if let NestedMeta::Meta(Meta::Path(ref path)) = *item {
-                let ident = &path.segments.first().unwrap().ident;
+                let ident = match path.get_ident() {
+                    Some(ident) => ident,
+                    None => {
+                        return Err(
+                            Error::unknown_value(&crate::util::path_to_string(path)).with_span(path)
+                        )
+                    }
+                };
                 let word = ident.to_string();
                 if word == "any" {
                     new.any = true;
@@ -170,7 +177,13 @@ impl FromMeta for DataShape {
 
         for item in items {
             if let NestedMeta::Meta(Meta::Path(ref path)) = *item {
-                errors.handle(new.set_word(&path.segments.first().unwrap().ident.to_string()));
+                if let Some(ident) = path.get_ident() {
+                    errors.handle(new.set_word(&ident.to_string()));
+                } else {
+                    errors.push(
+                        Error::unknown_value(&crate::util::path_to_string(path)).with_span(path),
+                    );
+                }
             } else {
                 errors.push(Error::unsupported_format("non-word").with_span(item));
             }
